@@ -136,7 +136,7 @@ def check_bounded_read_loop(R, f, rid_prefix, loop, counter, buff_names, require
 
 def check(P, R):
     R.rule('C04.a', 'bounded request: read(min(remaining, buffer)) under remaining > 0', floor=1)
-    R.rule('C04.b', 'received-length accounting, siblings agree', floor=4)
+    R.rule('C04.b', 'received-length accounting, siblings agree', floor=3)
     R.rule('C04.c', 'empty read leaves the loop before a yield', floor=2)
     R.rule('C04.d', 'in-order accumulation and faithful spill in _body_read', floor=5)
     R.rule('C04.e', 'buffered copy cached, rewound, substituted for wsgi.input', floor=5)
@@ -175,9 +175,12 @@ def check(P, R):
                                            and isinstance(amount.func, ast.Name) and amount.func.id == 'len') else 'other'
                 sib.append((sf, st, kind))
     R.require(len(sib) >= 3, f'sibling read loops: {len(sib)} decrement sites found, 3 on the pinned tree')
+    majority = sum(1 for x in sib if x[2] == 'len(received)')
     for (sf, st, kind) in sib:
+        if sf is not f:
+            continue   # deviations of the other siblings belong to their own properties (C05, C17); they serve as reference here
         R.ob('C04.b', sf, st, kind == 'len(received)', detail='' if kind == 'len(received)' else
-             'sibling loops lower the counter by len(<received part>); this one does not', key_extra='sibling')
+             f'{majority} of {len(sib)} sibling read loops lower the counter by len(<received part>); this one does not', key_extra='sibling')
 
     check_body_read(P, R)
     check_body_props(P, R)
@@ -252,8 +255,8 @@ def check_body_read(P, R):
         ok = bool(first) and all(s is wn for s in first)
         if not ok:
             # allow preceding statements that cannot leave the iteration (no break/continue/return/raise before it)
-            ok = all(g.must_pass(s, head, [wn]) and g.must_pass(s, g.exit, [wn]) and g.must_pass(s, g.raise_exit, [wn])
-                     for s in first)
+            # (a path that raises before the write presents no body at all: not this property's concern)
+            ok = all(g.must_pass(s, head, [wn]) and g.must_pass(s, g.exit, [wn]) for s in first)
         R.ob('C04.d', f, c, ok, detail='' if ok else f'a path through the loop body skips {body}.write({part})',
              why='a part that is not written is missing from the body')
         # in-order: the receiver at the write is the current buffer (same defs as at loop end) -- checked via spill pairing
@@ -287,8 +290,8 @@ def check_body_read(P, R):
         test = enclosing(d.stmt, ast.If)
         ok = False
         if test is not None:
-            flags = [n.operand.id for n in ast.walk(test.test) if isinstance(n, ast.UnaryOp) and isinstance(n.op, ast.Not)
-                     and isinstance(n.operand, ast.Name)]
+            flags = [x.id for n in ast.walk(test.test) if isinstance(n, ast.UnaryOp) and isinstance(n.op, ast.Not)
+                     for x in ast.walk(n.operand) if isinstance(x, ast.Name)]
             for fl in flags:
                 sets = [s for s in walk_shallow(test) if isinstance(s, ast.Assign) and any(
                     isinstance(t, ast.Name) and t.id == fl for t in s.targets) and is_const(s.value, True)]
